@@ -291,6 +291,8 @@ TRUSTED = [
     "modelled, not verified: tokio select!{biased}, oneshot/mpsc channels, JoinHandle::abort dropping the future at an await point, catch_unwind, Rust &mut exclusivity (no two callbacks of one actor can overlap)",
     "E1 engine: tokio current_thread runtime with start_paused(true); sleep(1ns) as exact quiescence barrier; harness actors interpret scripts",
     "scenarios whose outcome depends on the poll order of different actors within one settle window (detected by evaluating the model under three poll orders) are excluded from the comparison",
+    "thread-local modes: actors run on the ThreadLocalActorSpawner's OS thread; the harness freezes that thread while the driver or the main runtime runs and decides its idleness from /proc/self/task (state S + unchanged scheduling counters in 3 consecutive samples, docs/notes/C01-threadlocal.md); a bound of 10 s per settle ends the run as an infrastructure failure, never as a verdict",
+    "thread-local modes: spawn-linked scenarios are judged by the oracles only (the model links after pre_start, thread_local/inner.rs links before it); check_C04_local = check_C04 with the documented exception that a thread-local child's ActorTerminated never carries the state",
 ]
 
 
@@ -322,7 +324,7 @@ def _variants(sc):
     return out
 
 
-def shrink(chk, build, sc, oracle_fn, accept, rounds=25):
+def shrink(chk, build, sc, oracle_fn, accept, rounds=25, mode="send"):
     """greedy delta-debugging of an oracle-rejected scenario against the real code: keep a
     reduction as long as the oracle still rejects the implementation's trace"""
     cur = sc
@@ -330,7 +332,7 @@ def shrink(chk, build, sc, oracle_fn, accept, rounds=25):
         vs = _variants(cur)
         if not vs:
             break
-        impl = run_harness(build, "eng_world", [to_line(v) for v in vs], shards=8)
+        impl = run_harness(build, "eng_world", [to_line(v, mode) for v in vs], shards=8)
         exprs = [oracle_fn(len(v["actors"]), links_coq(v), it) for v, it in zip(vs, impl)]
         res = coq_eval(chk.prop + "_shrink", IMPORTS, exprs, scope="nat_scope")
         nxt = None
@@ -341,40 +343,55 @@ def shrink(chk, build, sc, oracle_fn, accept, rounds=25):
         if nxt is None:
             break
         cur = nxt
-    it = run_harness(build, "eng_world", [to_line(cur)])[0]
+    it = run_harness(build, "eng_world", [to_line(cur, mode)])[0]
     return cur, it
 
 
-def compare_build(chk, scs, build, tag, oracle_fn, accept, what, distinct):
+def is_linked(sc):
+    return any(a["link"] is not None for a in sc["actors"])
+
+
+def compare_build(chk, scs, build, tag, oracle_fn, accept, what, distinct, mode="send"):
+    """mode "send": every scenario is judged by the oracle and compared with the model.
+    local modes (thread-local hosts, see eng_world.rs): the oracle judges every implementation
+    trace; the model comparison is made only for scenarios without any spawn-link, where the one
+    modelled difference of the thread-local start (link before pre_start instead of after it,
+    no state in ActorTerminated) is unobservable and coq/Loop/World.v applies unchanged."""
     shrunk = False
     compared = discarded = 0
-    impl = run_harness(build, "eng_world", [to_line(sc) for sc in scs], shards=8)
+    local = mode != "send"
+    pre = f"local.{mode}." if local else ""
+    impl = run_harness(build, "eng_world", [to_line(sc, mode) for sc in scs], shards=8)
     exprs = []
-    for sc, it in zip(scs, impl):
+    with_model = [(not local) or (not is_linked(sc)) for sc in scs]
+    for sc, it, wm in zip(scs, impl, with_model):
         n = len(sc["actors"])
-        ms = ", ".join(model_expr(sc, o) for o in orders(n))
-        exprs.append(f"({ms}, {oracle_fn(n, links_coq(sc), it)})")
-    res = coq_eval(chk.prop, IMPORTS, exprs, scope="nat_scope")
-    for idx, (sc, it, r) in enumerate(zip(scs, impl, res)):
+        if wm:
+            ms = ", ".join(model_expr(sc, o) for o in orders(n))
+            exprs.append(f"({ms}, {oracle_fn(n, links_coq(sc), it)})")
+        else:
+            exprs.append(f"(0, {oracle_fn(n, links_coq(sc), it)})")
+    res = coq_eval(chk.prop + ("" if not local else "_" + mode.replace("-", "_")), IMPORTS, exprs, scope="nat_scope")
+    for idx, (sc, it, r, wm) in enumerate(zip(scs, impl, res, with_model)):
         n = len(sc["actors"])
         t = parse_term(r)
-        models, oracle = t[1:-1], t[-1]
+        models, oracle = (t[1:-1] if wm else []), t[-1]
         itr = parse_term(it)
         chk.coverage["evaluations"] += 1
         ph = phase_reached(itr)
         for p in ph:
-            chk.count("reached." + p)
+            chk.count(pre + "reached." + p)
         for o in sc["ops"]:
-            chk.count("op." + o[0])
+            chk.count(pre + "op." + o[0])
         vi = per_actor(itr, n)
-        desc = {"scenario": to_line(sc), "impl_trace": it}
+        desc = {"scenario": to_line(sc, mode), "impl_trace": it}
         if not accept(oracle):
             if not shrunk:
                 # minimise the first failing scenario against the real code
                 shrunk = True
                 try:
-                    small, small_trace = shrink(chk, build, sc, oracle_fn, accept)
-                    desc["minimised_scenario"] = to_line(small)
+                    small, small_trace = shrink(chk, build, sc, oracle_fn, accept, mode=mode)
+                    desc["minimised_scenario"] = to_line(small, mode)
                     desc["minimised_impl_trace"] = small_trace
                     desc["minimised_scenario_json"] = {"actors": small["actors"], "msgs": {str(k): v for k, v in small["msgs"].items()}, "ops": small["ops"]}
                 except Exception as ex:  # shrinking is best effort
@@ -383,6 +400,14 @@ def compare_build(chk, scs, build, tag, oracle_fn, accept, what, distinct):
                           f"{chk.prop} oracle rejects the implementation trace; verdict = {show_term(oracle)}\n"
                           + json.dumps(desc, indent=1) + f"\nbuild: {tag}" + "\nreplay: echo '<scenario>' | harness/target/debug/eng_world\n")
             continue
+        if not wm:
+            # spawn-linked thread-local scenario: oracle only
+            chk.count(pre + "oracle_only_linked")
+            if len(ph) >= 3:
+                distinct.add(json.dumps([mode, view_str(vi)], sort_keys=True))
+            continue
+        if local:
+            chk.count(pre + "model_compared_unlinked")
         vs = [per_actor(m, n) for m in models]
         v1 = vs[0]
         if not all(v == v1 for v in vs):
@@ -390,11 +415,11 @@ def compare_build(chk, scs, build, tag, oracle_fn, accept, what, distinct):
             # the implementation's scheduler picks one order; it is compared only if it coincides
             # with one of the evaluated orders, otherwise the scenario is left out
             if any(v == vi for v in vs):
-                chk.count("order_sensitive.matched")
+                chk.count(pre + "order_sensitive.matched")
                 compared += 1
             else:
                 discarded += 1
-                chk.count("order_sensitive.left_out")
+                chk.count(pre + "order_sensitive.left_out")
             continue
         compared += 1
         if len(ph) >= 3:
@@ -407,36 +432,65 @@ def compare_build(chk, scs, build, tag, oracle_fn, accept, what, distinct):
             chk.violation(f"model/implementation disagree on actor(s) {who}",
                           f"correspondence E1:per-actor view differs for actor(s) {who} (oracle accepts)\n"
                           + json.dumps(desc, indent=1), failing_input=False)
-        if len(chk.coverage["samples"]) < 2 and len(ph) >= 5:
-            chk.coverage["samples"].append({"scenario": to_line(sc), "impl_trace": it})
+        if len([x for x in chk.coverage["samples"] if x.get("mode", "send") == mode]) < (1 if local else 2) and len(ph) >= 5:
+            smp = {"scenario": to_line(sc, mode), "impl_trace": it}
+            if local:
+                smp["mode"] = mode
+            chk.coverage["samples"].append(smp)
     return compared, discarded
 
 
-def run_loop_check(chk, oracle_fn, focus, what, accept=lambda o: o == "true"):
+def gen_local(rng, k, focus):
+    """scenarios for the thread-local hosts: 3 of 5 without any spawn-link (compared with the
+    model), the rest spawn-linked trees and supervision bursts (oracle only)"""
+    if k % 5 < 3:
+        return gen_scenario(rng, focus if k % 2 else "mixed", link_p=0.0)
+    if k % 5 == 3:
+        return gen_scenario(rng, focus if k % 2 else "mixed")
+    return gen_supburst(rng)
+
+
+def run_loop_check(chk, oracle_fn, focus, what, accept=lambda o: o == "true", oracle_local_fn=None):
     """oracle_fn(n, links, impl_trace_coq) -> Coq expression; accept(parsed value) -> bool.
-    quick: default feature build; thorough: also the `async-trait` build of ractor (same scenarios)."""
+    oracle_local_fn: the oracle for the thread-local modes (default: the same).
+    quick: default feature build; thorough: also the `async-trait` build of ractor (same scenarios).
+    Every build runs the Send scenarios and, on one shared ThreadLocalActorSpawner per scenario,
+    the local-adapter and local-native scenarios (eng_world.rs `mode:`)."""
     quick = chk.tier == "quick"
     ok_proofs = chk.proofs()
     factor = 1 if ok_proofs else 4
     env_feats = tuple(x for x in os.environ.get("RV_FEATURES", "").split(",") if x)
     feature_sets = [env_feats] if (quick or env_feats) else [(), ("async-trait",)]
     n_cases = (400 if quick else 6000) * factor
+    n_local = (150 if quick else 2000) * factor
     scs = []
-    # corpus first
+    lscs = {m: [] for m in MODES[1:]}
+    # corpus first (a corpus scenario may name its mode; default send)
     cdir = os.path.join(ROOT, "corpus", chk.prop)
     if os.path.isdir(cdir):
         for f in sorted(os.listdir(cdir)):
             if f.endswith(".json"):
-                scs.append(json.load(open(os.path.join(cdir, f))))
-    ncorpus = len(scs)
+                c = json.load(open(os.path.join(cdir, f)))
+                m = c.pop("mode", "send")
+                (scs if m == "send" else lscs[m]).append(c)
+    ncorpus = len(scs) + sum(len(v) for v in lscs.values())
     for k in range(n_cases):
         if k % 5 == 4:
             scs.append(gen_supburst(chk.rng))
         else:
             scs.append(gen_scenario(chk.rng, focus if k % 2 else "mixed"))
-    scs = json.loads(json.dumps(scs))  # normalise tuples to lists
-    for sc in scs:
-        sc["msgs"] = {int(k): v for k, v in sc["msgs"].items()}
+    # the thread-local scenarios are drawn after the Send ones: the Send part of a seed is unchanged
+    for m in MODES[1:]:
+        for k in range(n_local):
+            lscs[m].append(gen_local(chk.rng, k, focus))
+
+    def norm(l):
+        l = json.loads(json.dumps(l))  # normalise tuples to lists
+        for sc in l:
+            sc["msgs"] = {int(k): v for k, v in sc["msgs"].items()}
+        return l
+    scs = norm(scs)
+    lscs = {m: norm(v) for m, v in lscs.items()}
     distinct = set()
     compared = discarded = 0
     chk.coverage["builds"] = []
@@ -455,6 +509,10 @@ def run_loop_check(chk, oracle_fn, focus, what, accept=lambda o: o == "true"):
         c, d = compare_build(chk, scs, build, tag, oracle_fn, accept, what, distinct)
         compared += c
         discarded += d
+        for m in MODES[1:]:
+            c, d = compare_build(chk, lscs[m], build, tag, oracle_local_fn or oracle_fn, accept, what, distinct, mode=m)
+            compared += c
+            discarded += d
     chk.coverage["traces_validated_against_impl"] = compared
     chk.coverage["discarded_order_sensitive"] = discarded
     chk.coverage["corpus"] = ncorpus
@@ -462,5 +520,13 @@ def run_loop_check(chk, oracle_fn, focus, what, accept=lambda o: o == "true"):
     chk.coverage["rule"] = ("seeded random worlds of 1-4 scripted actors (spawn-linked trees), scripts with gates/ticks/"
                             "send/stop/kill/drain, failing callbacks, driver programs with settles, aborts and bursts; "
                             "non-trivial = the trace reaches at least 3 distinct phases (callback kinds, cancel, park, abort, failure); "
-                            "distinct = distinct per-actor views")
+                            "distinct = distinct per-actor views; "
+                            "thread-local hosts: per build and per local mode (adapter / native) the same kind of worlds on one "
+                            "ThreadLocalActorSpawner, 3/5 without spawn-links (oracle + model comparison), 2/5 spawn-linked (oracle only)")
+    chk.coverage["thread_local"] = {
+        m: {"scenarios": len(lscs[m]) * len(chk.coverage["builds"]),
+            "model_compared_unlinked": chk.hist.get(f"local.{m}.model_compared_unlinked", 0),
+            "oracle_only_linked": chk.hist.get(f"local.{m}.oracle_only_linked", 0),
+            "order_sensitive_left_out": chk.hist.get(f"local.{m}.order_sensitive.left_out", 0)}
+        for m in MODES[1:]}
     return chk.finish(trusted_base=TRUSTED)
